@@ -11,7 +11,7 @@ import (
 
 func init() {
 	register(&Def{ID: "C06", Engine: "E1", Run: runC06,
-		Rule: "cross product: operation x numeric element type x operand form {TT,TS,ST, scalar given as scalar Tensor on either side} x layout of each tensor operand (L5 x L5 for TT) x op-matrix shape x value set {injective, edge (overflow, zero divisors, non-finite)} x {package function, method}; " +
+		Rule: "cross product: operation x numeric element type x operand form {TT,TS,ST, scalar given as scalar Tensor on either side} x layout of each tensor operand (L5 x L5 for TT, and the SAME tensor as both operands) x op-matrix shape (thorough: plus lengths 8, 17, 33 and (4,9) on both sides of the widths the vectorised kernels unroll by) x value set {injective, edge (overflow, zero divisors, non-finite), sums/products/quotients that round} x {package function, method}; " +
 			"plus the refusal space (every pair of unequal op-matrix shapes, element-type pairs, unsupported element types). one case = one tuple; every coordinate of the result is compared with Go's operator on the operands' elements; non-trivial = at least one element",
 		Assume: []string{"operands are built by the layout atlas and read back with At before use (a layout whose read-back differs from the model is skipped and counted; that is C01-C03's subject)",
 			"integer Pow is judged where math.Pow of the operands is exactly representable; NaN operands of min/max are not judged; soft vector equality (n)~(n,1)~(1,n) is not part of the mismatch space"}})
